@@ -33,6 +33,7 @@ pub fn check(tier: Tier) -> Check {
             }
         }
     }
+    parts.push(Part::new("C06/interleave", json!({"depth": tier.pick(4, 6), "r": 1, "flavour": 1}), 1, tier.pick(30, 400)));
     Check {
         also_rel: false,
         property: "C06",
@@ -64,7 +65,7 @@ pub fn scenario(name: &str, params: &Value) -> Scenario {
     Box::new(move |chz, ex| {
         let mut sys = Sys::new("C06", &name, chz);
         sys.params = params.clone();
-        sys.bring_up(if r == 0 { vec![] } else { receive_max(r) });
+        sys.bring_up_fl(if r == 0 { vec![] } else { receive_max(r) }, params["flavour"].as_u64().unwrap_or(0));
         if all_reasons {
             sys.set_write_mode(WriteMode::Explore);
         }
